@@ -245,6 +245,10 @@ def instances(tier):
         for mi in (1, 2):
             out.append(Instance("C03", "c03:s_converged", dict(shape=sh, maxiter=mi, delete=dl), name="A/%s/maxiter=%d" % (sid, mi), uf=True,
                                 cover=["runtime-error", "returned"], weight=30, max_paths=8000))
+    dead = S(N("S", "Source", pol="nonneg", only=()), N("C", "Converter", "S", only=()), N("G", "LinReg", "C", only=()), N("L", "PLoad", "G", only=()))
+    for mi in (1, 2):
+        out.append(Instance("C03", "c03:s_converged", dict(shape=dead, maxiter=mi), name="A/dead-source-cascade/maxiter=%d" % mi, uf=True,
+                            cover=["runtime-error", "returned"], weight=30, max_paths=8000))
     c_shapes = {
         "src-rs-iload": S(N("S", "Source"), N("L", "ILoad", "S", only=())),
         "switch-iload": S(N("S", "Source", only=()), N("W", "PSwitch", "S", only=("rs",)), N("L", "ILoad", "W", only=())),
